@@ -105,6 +105,14 @@ def run_shard(spec, rep):
             try:
                 got = []
                 for comp, pl, stated_c, ea_true in ((c1, plain[0], stated[0], ea1), (c2, plain[1], stated[1], ea2)):
+                    if (index + q) % 5 == 0:
+                        # the query is made with the user's OWN description of that substance: same name and molar mass, other
+                        # heat-capacity constants - experiments are matched by the component's name
+                        import attr
+
+                        h = comp.heat_capacity_constants
+                        comp = attr.evolve(comp, heat_capacity_constants=attr.evolve(h, a=h.a + 1.0, b=h.b * 1.01))
+                        rep.count("queries_with_a_same_named_user_defined_component")
                     p = mem.get_permeance(t, comp)
                     rep.count("permeance_queries")
                     got.append(p.value)
